@@ -22,6 +22,9 @@ def main():
                           "posterior accessor = posterior-epoch part", timeout_s=600 if chk.tier == "quick" else 1200,
                           env={"TYPES": ts, "NK": "2", "NH": nh, "STORE": str(store), "UPFRONT": str(up), "QG": str(qg), "MINI": str(qi % 2),
                                "TRACK": {"10": "p_k1,shared", "01": "p_k0,shared"}.get(nh, "") if qi % 2 == 0 else ""}, signature=f"chains:{ts}"))
+    s, nh, store, up = pl[0]
+    conds.append(Cond("vf.ch.h_engine", "check_chains_chunks", f"stored chains when epochs are sampled in several JIT chunks of 2 or 3 iterations (durations chunk*q, q <= 2, posterior thinning 1..2; epoch types INITIAL,{','.join(map(str, s))})",
+                      timeout_s=900, env={"TYPES": ",".join(map(str, s)), "NK": "2", "NH": nh, "STORE": str(store), "UPFRONT": str(up), "QG": "0", "MINI": "0", "TRACK": ""}, signature="chains:multi-chunk"))
     conds.append(Cond("vf.ch.h_chain", "check_append" if chk.tier == "quick" else "check_append_wide",
                       "ListEpochChain.append: for every sequence of chunk sizes and every thinning the kept global indices are {g : (g+1) mod thinning = 0} (chunking invariance)", 600, signature="append"))
     conds.append(Cond("vf.ch.h_chain", "check_manager", "EpochChainManager: per-epoch chains, combine_all in epoch order, posterior filter", 300, signature="manager"))
